@@ -80,12 +80,17 @@ def run_persist(c, P):
     ws = WS('ws://example.com/')
     poll, pr, pt = P.get('poll', 7), P.get('ping_rate', 0), P.get('ping_timeout', None)
     got = []
+    app_closed = []
     exit_ev = ExitEvent()
     ended = False
     n = 0
     try:
         for ev in persist(ws, poll=poll, min_wait=mn, max_wait=mx, ping_rate=pr, ping_timeout=pt, exit_event=exit_ev):
             got.append(ev)
+            if P.get('app_close') and ev.name in ('connecting', 'connected', 'ready') and c.choose(2, 'appclose'):
+                # the application reacts to an event by closing (persist must still back off and reconnect)
+                ws.close()
+                app_closed.append(ev.name)
             n += 1
             if n > 40 * K:
                 c.fail('C16: persist() produced more than %d events for %d attempts' % (40 * K, K))
